@@ -256,7 +256,9 @@ func enumerateAlts(body string) groupAlts {
 	return res
 }
 
+// (reShape also records what directly follows the operator group and the value group)
 type reShape struct {
+	AfterOperator, AfterValue, ValueGroup *syntax.Regexp
 	AnchoredStart, AnchoredEnd bool
 	Groups                     int
 	OutsideWhitespaceOnly      bool
@@ -318,9 +320,19 @@ func analyseRegexp(pattern string) (*reShape, error) {
 	if len(parts) > 0 && parts[len(parts)-1].Op == syntax.OpEndText {
 		sh.AnchoredEnd = true
 	}
-	for _, p := range parts {
+	for i, p := range parts {
 		if p.Op == syntax.OpCapture {
 			sh.TopLevelGroups = append(sh.TopLevelGroups, p.Cap)
+			// what directly follows group 2 and group 3 at top level
+			if p.Cap == 2 && i+1 < len(parts) {
+				sh.AfterOperator = parts[i+1]
+			}
+			if p.Cap == 3 {
+				sh.ValueGroup = p
+				if i+1 < len(parts) {
+					sh.AfterValue = parts[i+1]
+				}
+			}
 			continue
 		}
 		if !whitespaceOnly(p) {
@@ -398,6 +410,21 @@ func propC14(r *Run, w *World) {
 					}
 				}
 				r.Check(hidden == "", fmt.Sprintf("%s group %d alternation order", g.Name(), gi), pos, strings.Join(alts, " "), fmt.Sprintf("pattern %q, group %d: %s and always wins (Go tries alternatives left to right), so the longer operator is split: its tail becomes part of the value", pat, gi, hidden))
+			}
+			// the value starts right after the operator: nothing (not even optional whitespace) may be
+			// matched between group 2 and group 3, or leading spaces of a value would be dropped; for
+			// -F the value group must also run to the end anchor and accept any character, or
+			// trailing text would be dropped or refused
+			adjacent := sh.AfterOperator != nil && sh.AfterOperator.Op == syntax.OpCapture && sh.AfterOperator.Cap == 3
+			r.Check(adjacent, g.Name()+" value follows the operator directly", pos, "", fmt.Sprintf("pattern %q: something is matched between the operator and the value group, so part of the text after the operator does not end up in the value", pat))
+			if g.Name() == "filterRegexp" {
+				toEnd := sh.AfterValue != nil && sh.AfterValue.Op == syntax.OpEndText
+				anyPlus := false
+				if vg := sh.ValueGroup; vg != nil && len(vg.Sub) == 1 {
+					b := vg.Sub[0]
+					anyPlus = b.Op == syntax.OpPlus && len(b.Sub) == 1 && (b.Sub[0].Op == syntax.OpAnyCharNotNL || b.Sub[0].Op == syntax.OpAnyChar)
+				}
+				r.Check(toEnd && anyPlus, g.Name()+" value is the rest of the argument", pos, "(.+)$", fmt.Sprintf("pattern %q: the value group is not `(.+)` immediately before the end anchor, so the value is not the complete text after the operator (whitespace at its edges is trimmed, or some values are refused)", pat))
 			}
 			// the operator group is a finite language: it must be exactly the operators the encoder
 			// knows (-F) or =, != (-C), and no string of an earlier alternative may be a proper
